@@ -202,6 +202,12 @@ def rand_state(rng):
         s[(B.K_LAN, rng.choice([0, 1, 2, 7, 14, 15]), 20)] = [rng.randrange(256), rng.choice([0x80, 0x8f, 0x00, 0x81])]
     if rng.random() < 0.3:
         s[(B.K_LAN, rng.choice([0, 1, 2]), 4)] = [rng.randrange(5)]
+    if rng.random() < 0.4:
+        s[(B.K_HPMCAP, 0, 0)] = [rng.randrange(256) for _ in range(6)] + [rng.choice([0, 1, 0x05, 0x80, 0xff])]
+    if rng.random() < 0.4:
+        s[(B.K_HPMSTAT, 0, 0)] = [rng.choice([0, 0x31, 0x32, 0x33]), rng.choice([0, 0x80, 0xd5])]
+    if rng.random() < 0.4:
+        s[(B.K_SELFTEST, 0, 0)] = [rng.choice([0x55, 0x56, 0x57, 0x58, 0xff]), rng.randrange(256)]
     if rng.random() < 0.5:
         s[(B.K_BOOT, 5, 0)] = [rng.choice([0x80, 0xc0, 0xa0, 0xe0]), rng.choice(list(range(10)) + [11, 15]) << 2, 0, 0, 0]
     return s
